@@ -10,7 +10,7 @@
                         identifiers, formulae and SMILES-like labels, e.g. CC(=O)O, C#C, Fe(OH)3 ([ex_label_domain]).
       [rxns_of H]       the stored reactions (rule, reactants, products) as a list; multiset equality is [≡ₚ]. *)
 From stdpp Require Import gmap strings sets.
-From SK Require Import lib.Tok model.C15_Model proof.C15_Proof model.C16_Model proof.C16_Defs proof.C16_Chars proof.C16_Str proof.C16_Sg proof.C16_BipA proof.C16_BipB proof.C16_BipNum proof.C16_BipMarker proof.C16_Reach proof.C16_SgMol proof.C16_SgRules proof.C16_StrItems proof.C16_StrOrder model.C16_Edit proof.C16_BipDrop proof.C16_SgDrop.
+From SK Require Import lib.Tok model.C15_Model proof.C15_Proof model.C16_Model proof.C16_Defs proof.C16_Chars proof.C16_Str proof.C16_Sg proof.C16_BipA proof.C16_BipB proof.C16_BipNum proof.C16_BipMarker proof.C16_Reach proof.C16_SgMol proof.C16_SgRules proof.C16_StrItems proof.C16_StrOrder model.C16_Edit proof.C16_BipArcs proof.C16_BipDrop proof.C16_SgDrop.
 Local Open Scope string_scope.
 
 (** every network reachable through the store operations (C15_inv_reachable) satisfies the decidable premise used below *)
@@ -46,6 +46,22 @@ Theorem C16_bipartite_roundtrip : ∀ (fl : bflags) (ifl : iflags) (H : net),
     = if f_mol fl && i_mol ifl then filter (λ p, p.1 ∈ occurring H) (mol H) else ∅.
 Proof. exact bipartite_roundtrip. Qed.
 Print Assumptions C16_bipartite_roundtrip.
+
+(** the same without the premise on `include_stoich`: EVERY flag combination that exports the ids.  Without coefficients on
+    the arcs the importer reads each as 1, so exactly the supports come back (same ids, rules, species sets per side, every
+    coefficient 1) — the precise sense in which include_stoich=False is not invertible; with coefficients this is the theorem
+    above.  (round 5; before, the flag combinations without coefficients were only compared.) *)
+Theorem C16_bipartite_roundtrip_any_stoich : ∀ (fl : bflags) (ifl : iflags) (H : net),
+  wf16 H → f_eid fl = true → bip_names_ok fl H →
+  (bipartite_to_hypergraph ifl (hypergraph_to_bipartite fl H)).2 = None ∧
+  edges (bipartite_to_hypergraph ifl (hypergraph_to_bipartite fl H)).1
+    = (λ rx, Rxn (r_rule rx) ((λ c, if f_stoich fl then c else 1%positive) <$> r_lhs rx)
+                             ((λ c, if f_stoich fl then c else 1%positive) <$> r_rhs rx)) <$> edges H ∧
+  species (bipartite_to_hypergraph ifl (hypergraph_to_bipartite fl H)).1 = occurring H ∧
+  mol (bipartite_to_hypergraph ifl (hypergraph_to_bipartite fl H)).1
+    = if f_mol fl && i_mol ifl then filter (λ p, p.1 ∈ occurring H) (mol H) else ∅.
+Proof. exact bipartite_roundtrip_gen. Qed.
+Print Assumptions C16_bipartite_roundtrip_any_stoich.
 
 (** instance: every network reachable by any history of store operations (C15), default prefixes *)
 Theorem C16_bipartite_roundtrip_reachable : ∀ (n : nat) (ops : list op) (k : nat) (fl : bflags) (ifl : iflags),
@@ -214,7 +230,8 @@ Print Assumptions C16_import_ignores_marker.
     The importer has a fall-back for each of them (kind: node-id prefixes, then degrees; label: str(node) for a species, the
     default rule for a reaction; stoich: 1; mol: no label), and the round trip of C16_bipartite_roundtrip SURVIVES the deletion of
     everything the fall-backs can re-derive.  All premises are written out (they are decidable: [edit_ok] in proof/C16_BipDrop.v):
-      - coefficients (and roles) stay;
+      - `stoich`, `role`, `mol`, the marker: no premise (without `stoich` every coefficient is read as 1: the supports come back,
+        as for include_stoich=False, C16_bipartite_roundtrip_any_stoich);
       - integer node ids carry no prefix: `kind` and the species `label` must stay;
       - species nodes without `kind`: the importer's species prefix is the exporter's;
       - species nodes without `label`: the exporter used no species prefix (the node id IS the label);
@@ -223,27 +240,37 @@ Print Assumptions C16_import_ignores_marker.
       - reaction nodes without `label`: every rule is the importer's default rule.
     Each premise is needed: [ex_edit_int_needed], [ex_edit_prefix_needed], [ex_edit_bare]; non-vacuity [ex_edit_untagged]. *)
 Theorem C16_bipartite_roundtrip_edited : ∀ (fl : bflags) (ifl : iflags) (d : drops) (H : net),
-  wf16 H → f_eid fl = true → f_stoich fl = true → bip_names_ok fl H →
-  (d_stoich d = false ∧ d_role d = false ∧
-   (f_int fl = true → d_kind_sp d = false ∧ d_kind_rx d = false ∧ d_label_sp d = false) ∧
+  wf16 H → f_eid fl = true → bip_names_ok fl H →
+  ((f_int fl = true → d_kind_sp d = false ∧ d_kind_rx d = false ∧ d_label_sp d = false) ∧
    (d_kind_sp d = true → i_sp ifl = default "" (f_sp fl)) ∧
    (d_label_sp d = true → default "" (f_sp fl) = "") ∧
    (d_kind_rx d = true → i_rp ifl = default "" (f_rp fl) ∧
       map_Forall (λ e _, String.prefix (i_sp ifl) (default "" (f_rp fl) +:+ e) = false) (edges H)) ∧
    (d_label_rx d = true → map_Forall (λ _ rx, r_rule rx = i_default_rule ifl) (edges H))) →
   (bipartite_to_hypergraph ifl (drop_attrs d (hypergraph_to_bipartite fl H))).2 = None ∧
-  edges (bipartite_to_hypergraph ifl (drop_attrs d (hypergraph_to_bipartite fl H))).1 = edges H ∧
+  edges (bipartite_to_hypergraph ifl (drop_attrs d (hypergraph_to_bipartite fl H))).1
+    = (λ rx, Rxn (r_rule rx) ((λ c, if f_stoich fl && negb (d_stoich d) then c else 1%positive) <$> r_lhs rx)
+                             ((λ c, if f_stoich fl && negb (d_stoich d) then c else 1%positive) <$> r_rhs rx)) <$> edges H ∧
   species (bipartite_to_hypergraph ifl (drop_attrs d (hypergraph_to_bipartite fl H))).1 = occurring H ∧
   mol (bipartite_to_hypergraph ifl (drop_attrs d (hypergraph_to_bipartite fl H))).1
     = if f_mol fl && i_mol ifl && negb (d_mol d) then filter (λ p, p.1 ∈ occurring H) (mol H) else ∅.
 Proof. exact bipartite_roundtrip_edited. Qed.
 Print Assumptions C16_bipartite_roundtrip_edited.
 
-(** the default configuration: exported with "S:" / "R:" (string ids) and imported with the default flags, the graph may lose
-    every `kind`, `mol` and marker — and, when all rules are "r", the reaction labels too *)
+(** deleting `stoich` / `role` from every arc of an exported graph gives EXACTLY the graph the exporter builds with
+    include_stoich / include_role switched off (the deletion commutes with every step of the export) *)
+Theorem C16_delete_arc_attrs_is_export_flag : ∀ (fl : bflags) (d : drops) (H : net),
+  hypergraph_to_bipartite (BFlags (f_sp fl) (f_rp fl) (f_bv_s fl) (f_bv_r fl) (f_stoich fl && negb (d_stoich d))
+                                  (f_role fl && negb (d_role d)) (f_isolated fl) (f_int fl) (f_eid fl) (f_mol fl)) H
+  = drop_attrs (Drops false false false false (d_stoich d) (d_role d) false false) (hypergraph_to_bipartite fl H).
+Proof. exact export_drop_arcs. Qed.
+Print Assumptions C16_delete_arc_attrs_is_export_flag.
+
+(** the default configuration: exported with "S:" / "R:" (string ids, coefficients) and imported with the default flags, the graph
+    may lose every `kind`, `role`, `mol` and marker — and, when all rules are "r", the reaction labels too *)
 Theorem C16_untagged_default_prefixes : ∀ (fl : bflags) (d : drops) (mol_attr : bool) (H : net),
   wf16 H → f_eid fl = true → f_stoich fl = true → f_int fl = false → f_sp fl = Some "S:" → f_rp fl = Some "R:" →
-  d_stoich d = false → d_role d = false → d_label_sp d = false →
+  d_stoich d = false → d_label_sp d = false →
   (d_label_rx d = true → map_Forall (λ _ rx, r_rule rx = "r") (edges H)) →
   (bipartite_to_hypergraph (default_iflags mol_attr) (drop_attrs d (hypergraph_to_bipartite fl H))).2 = None ∧
   edges (bipartite_to_hypergraph (default_iflags mol_attr) (drop_attrs d (hypergraph_to_bipartite fl H))).1 = edges H.
